@@ -1914,7 +1914,8 @@ impl TypeLayout {
         }
 
         if let Op::Unwrap = op {
-            if lhs == other {
+            // inside a class body `Self` and the class's own name are the same type
+            if lhs == other || lhs.eq_complex(other, flags) {
                 return Some(TypeLayout::Native(NativeType::Bool));
             }
             return None;
